@@ -74,12 +74,13 @@ fn opts(uri: u32, ts: i64, lean: bool) -> PutOptions {
     o
 }
 
-pub struct Scenario { pub name: &'static str, pub bytes: Vec<u8> }
+/// `focus`: only the payload regions are faulted (the scenario exists for its payload layout: duplicates, shared ranges)
+pub struct Scenario { pub name: &'static str, pub bytes: Vec<u8>, pub focus: bool }
 
 fn build(name: &'static str, dir: &Path, f: &dyn Fn(&mut Memvid)) -> Scenario {
     let p = dir.join(format!("{}.mv2", name));
     { let mut m = Memvid::create(&p).expect("create"); f(&mut m); m.commit().expect("commit"); }
-    Scenario { name, bytes: std::fs::read(&p).expect("read scenario") }
+    Scenario { name, bytes: std::fs::read(&p).expect("read scenario"), focus: name.as_bytes()[0] >= b'E' }
 }
 
 pub fn scenarios(dir: &Path, r: &mut Rng) -> Vec<Scenario> {
@@ -110,6 +111,42 @@ pub fn scenarios(dir: &Path, r: &mut Rng) -> Vec<Scenario> {
                 source_offset: None, engine: "x".into(), engine_version: "1".into(), confidence: None, created_at: 1_700_000_000 }).expect("card");
         }
         m.delete_frame(0).expect("delete");
+    }));
+    // E..H: byte-identical stored payloads in several active frames (dedup is off by default), so that a check remembered
+    // per checksum / per handle instead of per read would show
+    // E: the same 604-byte binary payload twice, the same compressible text three times, interleaved
+    v.push(build("E-dup2p3z", dir, &|m| {
+        let (b, t) = (bin_payload(604, 51 + s0), text_payload(1300, 52 + s0));
+        m.put_bytes_with_options(&b, opts(1, 1_700_000_100, true)).expect("put");
+        m.put_bytes_with_options(&t, opts(2, 1_700_000_200, true)).expect("put");
+        m.put_bytes_with_options(&b, opts(3, 1_700_000_300, true)).expect("put");
+        m.put_bytes_with_options(&t, opts(4, 1_700_000_400, true)).expect("put");
+        m.put_bytes_with_options(&t, opts(5, 1_700_000_500, true)).expect("put");
+    }));
+    // F: three binary copies, two text copies, over two commits
+    v.push(build("F-dup3p2z", dir, &|m| {
+        let (b, t) = (bin_payload(250, 61 + s0), text_payload(900, 62 + s0));
+        m.put_bytes_with_options(&b, opts(1, 1_700_000_100, true)).expect("put");
+        m.put_bytes_with_options(&b, opts(2, 1_700_000_200, true)).expect("put");
+        m.put_bytes_with_options(&t, opts(3, 1_700_000_300, true)).expect("put");
+        m.commit().expect("commit");
+        m.put_bytes_with_options(&t, opts(4, 1_700_000_400, true)).expect("put");
+        m.put_bytes_with_options(&b, opts(5, 1_700_000_500, true)).expect("put");
+    }));
+    // G: a payload-less update (the new frame shares the superseded frame's byte range) + a separate copy of the same bytes
+    v.push(build("G-shared", dir, &|m| {
+        let b = bin_payload(300, 71 + s0);
+        m.put_bytes_with_options(&b, opts(1, 1_700_000_100, true)).expect("put");
+        m.put_bytes_with_options(&text_payload(500, 72 + s0), opts(2, 1_700_000_200, true)).expect("put");
+        m.commit().expect("commit");
+        m.update_frame(0, None, opts(1, 1_700_000_100, true), None).expect("update");
+        m.put_bytes_with_options(&b, opts(3, 1_700_000_300, true)).expect("put");
+    }));
+    // H: the same chunked document twice (every chunk payload exists twice, in two documents)
+    v.push(build("H-dupchunk", dir, &|m| {
+        let t = text_payload(5200, 81 + s0);
+        m.put_bytes_with_options(&t, opts(1, 1_700_000_100, true)).expect("put");
+        m.put_bytes_with_options(&t, opts(2, 1_700_000_200, true)).expect("put");
     }));
     v
 }
@@ -158,7 +195,7 @@ pub fn region_map(b: &[u8]) -> (Vec<Region>, Toc, u64, u64) {
     add(C_TOC, toc_off, foot_off - toc_off, None);
     add(C_FOOT_MAGIC, foot_off, 8, None); add(C_FOOT_LEN, foot_off + 8, 8, None); add(C_FOOT_HASH, foot_off + 16, 32, None); add(C_FOOT_GEN, foot_off + 48, 8, None);
     // first region listed wins on overlap (payload-less updates share ranges); gaps become "unreferenced"
-    rs.sort_by_key(|r| (r.start, r.end));
+    rs.sort_by_key(|r| (r.start, r.end, r.class == C_PAY_INACTIVE));
     let mut out: Vec<Region> = vec![]; let mut pos = 0u64;
     for r in rs {
         if r.end <= pos { continue; }
@@ -273,9 +310,51 @@ fn apply(b: &[u8], f: &Fault) -> Vec<u8> {
     v
 }
 
-pub struct Outcome { pub rw: Verdict, pub ro: Verdict, pub verify: u8, pub why: String, pub changed: bool, pub rewritten: bool, pub ms: [u128; 3] }
+pub struct Outcome { pub rw: Verdict, pub ro: Verdict, pub verify: u8, pub why: String, pub changed: bool, pub rewritten: bool, pub ms: [u128; 3], pub orders: String }
 
-fn run_fault(work: &Path, k: usize, clean: &[u8], f: &Fault, base_rw: &Obs, base_ro: &Obs, nframes: u64) -> Outcome {
+/// answer of `frame_canonical_payload(id)` relative to the clean file: 0 = error, 1 = Ok and the clean file's data,
+/// 2 = Ok with different data, 3 = Ok where the clean file fails
+fn payload_code(m: &mut Memvid, id: u64, clean: &std::collections::HashMap<u64, Option<Vec<u8>>>) -> u8 {
+    match guarded(|| m.frame_canonical_payload(id)) {
+        Ok(Ok(b)) => match clean.get(&id) { Some(Some(d)) => if *d == dg(&[&b]) { 1 } else { 2 }, _ => 3 },
+        _ => 0,
+    }
+}
+
+/// clean answers of every frame's payload read
+fn clean_payloads(path: &Path, nframes: u64) -> std::collections::HashMap<u64, Option<Vec<u8>>> {
+    let mut m = Memvid::open_read_only(path).expect("clean ro open");
+    (0..nframes).map(|id| (id, m.frame_canonical_payload(id).ok().map(|b| dg(&[&b])))).collect()
+}
+
+/// The payload reads of one faulted file under several read schedules, each on its own handle (and one handle used for
+/// two passes), with verify(deep) before and after.  `damaged` = the frames whose byte window the fault touches.
+/// Result: "name=id:code,...;...;vb=<verify before>;va=<verify after>".
+fn order_runs(p: &Path, img: &[u8], nframes: u64, damaged: &[u64], clean: &std::collections::HashMap<u64, Option<Vec<u8>>>) -> String {
+    let asc: Vec<u64> = (0..nframes).collect();
+    let desc: Vec<u64> = asc.iter().rev().cloned().collect();
+    let mut clean_first: Vec<u64> = asc.iter().filter(|i| !damaged.contains(i)).cloned().collect();
+    clean_first.extend(damaged); clean_first.extend(damaged);
+    let mut damaged_first: Vec<u64> = damaged.to_vec(); damaged_first.extend(&asc); damaged_first.extend(damaged);
+    let mut both: Vec<u64> = asc.clone(); both.extend(&desc);
+    let mut out = vec![];
+    std::fs::write(p, img).unwrap();
+    let vb = run_verify(p).0;
+    for (name, read_only, sched) in [("asc", true, &asc), ("desc", true, &desc), ("cleanfirst", false, &clean_first), ("damagedfirst", true, &damaged_first), ("ascdesc", false, &both)] {
+        std::fs::write(p, img).unwrap();
+        let steps: Vec<String> = match guarded(|| if read_only { Memvid::open_read_only(p) } else { Memvid::open(p) }) {
+            Ok(Ok(mut m)) => { let v = sched.iter().map(|id| format!("{}:{}", id, payload_code(&mut m, *id, clean))).collect(); if !read_only { memvid_core::verif_hooks::drop_without_commit(m); } v }
+            _ => sched.iter().map(|id| format!("{}:0", id)).collect(),
+        };
+        out.push(format!("{}={}", name, steps.join(",")));
+    }
+    // verify again on the file as the last read-write handle left it
+    let va = run_verify(p).0;
+    out.push(format!("vb={}", vb)); out.push(format!("va={}", va));
+    out.join(";")
+}
+
+fn run_fault(work: &Path, k: usize, clean: &[u8], f: &Fault, base_rw: &Obs, base_ro: &Obs, nframes: u64, sched: Option<(&[u64], &std::collections::HashMap<u64, Option<Vec<u8>>>)>) -> Outcome {
     let img = apply(clean, f);
     let changed = img != clean;
     let p = work.join(format!("f{}.mv2", k));
@@ -294,11 +373,12 @@ fn run_fault(work: &Path, k: usize, clean: &[u8], f: &Fault, base_rw: &Obs, base
     std::fs::write(&p, &img).unwrap();
     let (vf, w3) = run_verify(&p);
     let t3 = t0.elapsed().as_millis();
+    let orders = match sched { Some((damaged, cl)) if changed => order_runs(&p, &img, nframes, damaged, cl), _ => "-".to_string() };
     let _ = std::fs::remove_file(&p);
     if rw != Verdict::Same { why.push_str(&format!("rw {}; ", w1)); }
     if ro != Verdict::Same { why.push_str(&format!("ro {}; ", w2)); }
     if vf != 0 { why.push_str(&format!("verify {}", w3)); }
-    Outcome { rw, ro, verify: vf, why, changed, rewritten, ms: [t1, t2 - t1, t3 - t2] }
+    Outcome { rw, ro, verify: vf, why, changed, rewritten, ms: [t1, t2 - t1, t3 - t2], orders }
 }
 
 fn vcode(v: Verdict) -> u128 { match v { Verdict::Error => 0, Verdict::Same => 1, Verdict::Diff => 2 } }
@@ -327,6 +407,11 @@ fn baseline(dir: &Path, bytes: &[u8], nframes: u64) -> Baseline {
 
 /// worker process: `C20-child <scenario file> <faults file> <start> <stride> <skip-until> <out file>`
 /// runs the faults k = start, start+stride, ... (k >= skip-until) one after the other and appends one line per fault.
+/// frames (any status) whose stored payload window intersects [off, off+len)
+fn damaged_frames(toc: &Toc, off: u64, len: u64) -> Vec<u64> {
+    toc.frames.iter().filter(|f| f.payload_length > 0 && f.payload_offset < off + len && f.payload_offset + f.payload_length > off).map(|f| f.id).collect()
+}
+
 pub fn child(args: &[String]) {
     std::panic::set_hook(Box::new(|_| {}));
     let bytes = std::fs::read(&args[0]).expect("scenario");
@@ -335,13 +420,22 @@ pub fn child(args: &[String]) {
     let work = tempfile::Builder::new().prefix("c20w_").tempdir_in(Path::new(&args[0]).parent().unwrap()).expect("workdir");
     let (_, toc, _, _) = region_map(&bytes);
     let base = baseline(work.path(), &bytes, toc.frames.len() as u64);
+    let cleanp = work.path().join("cleanp.mv2"); std::fs::write(&cleanp, &bytes).unwrap();
+    let clean_answers = clean_payloads(&cleanp, base.nframes); let _ = std::fs::remove_file(&cleanp);
     use std::io::Write;
     let mut out = std::fs::OpenOptions::new().create(true).append(true).open(&args[5]).expect("out");
     let mut k = start;
     while k < faults.len() {
         if k >= from {
-            let o = run_fault(work.path(), k, &bytes, &faults[k], &base.rw, &base.ro, base.nframes);
-            writeln!(out, "{}\t{}\t{}\t{}\t{}\t{}\t{}", k, vcode(o.rw), vcode(o.ro), o.verify, o.changed as u8 + 2 * o.rewritten as u8, o.ms.iter().sum::<u128>(), o.why.replace(['\t', '\n'], " ")).unwrap();
+            // faults that touch a frame's stored payload window (flips / zeroing): also the read schedules
+            let damaged: Vec<u64> = match &faults[k] {
+                Fault::Trunc { .. } => vec![],
+                Fault::Flip { off, .. } => damaged_frames(&toc, *off, 1),
+                Fault::Zero { off, len } => damaged_frames(&toc, *off, *len),
+            };
+            let sched = if damaged.is_empty() { None } else { Some((&damaged[..], &clean_answers)) };
+            let o = run_fault(work.path(), k, &bytes, &faults[k], &base.rw, &base.ro, base.nframes, sched);
+            writeln!(out, "{}\t{}\t{}\t{}\t{}\t{}\t{}\t{}", k, vcode(o.rw), vcode(o.ro), o.verify, o.changed as u8 + 2 * o.rewritten as u8, o.ms.iter().sum::<u128>(), o.orders, o.why.replace(['\t', '\n'], " ")).unwrap();
             out.flush().unwrap();
         }
         k += stride;
@@ -373,17 +467,17 @@ fn run_workers(dir: &Path, sc: &Scenario, faults: &[Fault], workers: usize) -> V
             let _ = c.wait();
             let mut last = None;
             for l in std::fs::read_to_string(&of).unwrap_or_default().lines() {
-                let p: Vec<&str> = l.splitn(7, '\t').collect();
-                if p.len() < 7 { continue; }
+                let p: Vec<&str> = l.splitn(8, '\t').collect();
+                if p.len() < 8 { continue; }
                 let k: usize = p[0].parse().unwrap();
                 let vd = |x: &str| match x { "0" => Verdict::Error, "1" => Verdict::Same, _ => Verdict::Diff };
-                results[k] = Some(Outcome { rw: vd(p[1]), ro: vd(p[2]), verify: p[3].parse().unwrap(), changed: p[4] == "1" || p[4] == "3", rewritten: p[4] == "2" || p[4] == "3", ms: [p[5].parse().unwrap(), 0, 0], why: p[6].to_string() });
+                results[k] = Some(Outcome { rw: vd(p[1]), ro: vd(p[2]), verify: p[3].parse().unwrap(), changed: p[4] == "1" || p[4] == "3", rewritten: p[4] == "2" || p[4] == "3", ms: [p[5].parse().unwrap(), 0, 0], orders: p[6].to_string(), why: p[7].to_string() });
                 last = Some(k);
             }
             // the worker stopped early: the fault after the last answered one killed the process (abort, not a panic)
             let mut nxt = match last { Some(k) => k + workers, None => { let mut k = wk; while k < from[wk] { k += workers; } k } };
             if nxt < faults.len() {
-                results[nxt] = Some(Outcome { rw: Verdict::Error, ro: Verdict::Error, verify: 2, changed: true, rewritten: false, ms: [0, 0, 0], why: "worker process died on this fault (abort)".into() });
+                results[nxt] = Some(Outcome { rw: Verdict::Error, ro: Verdict::Error, verify: 2, changed: true, rewritten: false, ms: [0, 0, 0], orders: "-".into(), why: "worker process died on this fault (abort)".into() });
                 nxt += workers;
             }
             from[wk] = nxt;
@@ -418,14 +512,14 @@ pub fn run(seed: u64, n: usize, tier: &str, w: &mut dyn std::io::Write) {
                 let t2 = Toc::decode(&img[_toc_off as usize.._foot_off as usize]);
                 match t2 { Ok(t2) => { let (a, b) = (format!("{:#?}", toc), format!("{:#?}", t2)); for (x, y) in a.lines().zip(b.lines()) { if x != y { eprintln!("TOC DIFF: {} -> {}", x.trim(), y.trim()); } } eprintln!("lines {} vs {}; verify_checksum of damaged toc: {:?}", a.lines().count(), b.lines().count(), t2.verify_checksum().is_ok()); }, Err(e) => eprintln!("damaged toc does not decode: {}", e) }
             }
-            let o = run_fault(dir.path(), 0, &sc.bytes, &f, &base.rw, &base.ro, nframes);
+            let o = run_fault(dir.path(), 0, &sc.bytes, &f, &base.rw, &base.ro, nframes, None);
             eprintln!("{} {:?} {} -> rw {:?} ro {:?} verify {} ms {:?} :: {}", sc.name, f, class_name(class_at(&regions, match f { Fault::Flip { off, .. } => off, Fault::Zero { off, .. } => off, Fault::Trunc { at } => at }).0), o.rw, o.ro, o.verify, o.ms, o.why);
             continue;
         }
         // ---- fault list
         let mut faults: Vec<Fault> = vec![];
         let mut seq_regions = 0usize; let mut tantivy_regions = 0usize;
-        let budget = n.max(40) / scs.len();      // faults per scenario (roughly)
+        let budget = n.max(40) / scs.iter().filter(|s| !s.focus).count().max(1);      // faults per full scenario (roughly)
         let dense: &[u8] = &[C_PAY_CHUNK, C_HDR_MAGIC, C_HDR_FOOTER_OFF, C_HDR_WAL_OFF, C_HDR_WAL_SIZE, C_HDR_CKPT_POS, C_HDR_WAL_SEQ, C_HDR_TOC_SUM, C_WAL_SEQ, C_WAL_LEN, C_WAL_RESERVED, C_WAL_DIGEST,
                              C_TIME_INDEX, C_FOOT_MAGIC, C_FOOT_LEN, C_FOOT_HASH, C_FOOT_GEN, C_PAY_PLAIN, C_PAY_ZSTD, C_TOC];
         // regions of at most 64 bytes of the dense classes: every byte; the larger ones (payloads, TOC): every byte in
@@ -437,6 +531,20 @@ pub fn run(seed: u64, n: usize, tier: &str, w: &mut dyn std::io::Write) {
         let step = if thorough { 1 } else { ((large_total + large_share - 1) / large_share).max(1) };
         for g in &regions {
             let span = g.end - g.start;
+            let payload_class = [C_PAY_PLAIN, C_PAY_ZSTD, C_PAY_CHUNK, C_PAY_INACTIVE].contains(&g.class);
+            // every copy of every payload: first byte, last byte (on top of the sample below)
+            if payload_class { for o in [g.start, g.end - 1] { faults.push(Fault::Flip { off: o, bit: r.below(8) as u8 }); } }
+            if sc.focus {
+                // duplicate-payload scenarios: only the payload windows, each copy in turn
+                if !payload_class { continue; }
+                let k = if thorough { (span / 4).max(8) } else { 3 };
+                for _ in 0..k.min(span) { faults.push(Fault::Flip { off: g.start + r.below(span), bit: r.below(8) as u8 }); }
+                let (b0, b1) = (g.start / 64, (g.end - 1) / 64);
+                let mut blocks = vec![b0, b1, b0 + r.below(b1 - b0 + 1)]; blocks.sort(); blocks.dedup();
+                for bl in blocks { let (a, b) = ((bl * 64).max(g.start), (bl * 64 + 64).min(g.end)); faults.push(Fault::Zero { off: a, len: b - a }); }
+                faults.push(Fault::Trunc { at: g.start + span / 2 });
+                continue;
+            }
             if g.class == C_WAL_SEQ { seq_regions += 1; }
             if [C_WAL_SEQ, C_WAL_LEN, C_WAL_RESERVED, C_WAL_DIGEST].contains(&g.class) && seq_regions > 1 && !thorough {
                 // every byte of the first record's header fields, two of each field of the later records (a replayed record costs a full commit, ~1 s)
@@ -460,8 +568,10 @@ pub fn run(seed: u64, n: usize, tier: &str, w: &mut dyn std::io::Write) {
             // truncation at the region's start -1, +0, +1
             for at in [g.start.saturating_sub(1), g.start, g.start + 1] { if at < sc.bytes.len() as u64 && (!repeated || at == g.start) { faults.push(Fault::Trunc { at }); } }
         }
-        faults.push(Fault::Trunc { at: sc.bytes.len() as u64 - 1 });
-        for _ in 0..6 { faults.push(Fault::Trunc { at: r.below(sc.bytes.len() as u64) }); }
+        if !sc.focus {
+            faults.push(Fault::Trunc { at: sc.bytes.len() as u64 - 1 });
+            for _ in 0..6 { faults.push(Fault::Trunc { at: r.below(sc.bytes.len() as u64) }); }
+        }
         let t0 = std::time::Instant::now();
         let results = run_workers(dir.path(), sc, &faults, workers);
         if debug { eprintln!("{}: {} faults in {} ms", sc.name, faults.len(), t0.elapsed().as_millis()); }
@@ -491,6 +601,45 @@ pub fn run(seed: u64, n: usize, tier: &str, w: &mut dyn std::io::Write) {
                     if reads_ok(o.rw) != reads_ok(o.ro) { ti_viol = Some(format!("time-index-modes-disagree: open and open_read_only disagree on a damaged time index ({:?} of {})", f, sc.name)); }
                     emit(w, "ti", &Case { input: ti_in, output: T::Tup(vec![T::N(reads_ok(o.rw)), T::N(if o.verify == 0 { 0 } else { 1 })]), violation: ti_viol, nontrivial: true, tags: vec![sc.name.into(), kname.into()], key: format!("ti:{}:{}:{}:{}", sc.name, kind, off, len) });
                 }
+            }
+            let mut viol = viol;
+            if o.orders != "-" {
+                let img = apply(&sc.bytes, f);
+                let wins: Vec<(Vec<u8>, Vec<u8>)> = toc.frames.iter().map(|fr| (if fr.payload_length > 0 { img[fr.payload_offset as usize..(fr.payload_offset + fr.payload_length) as usize].to_vec() } else { vec![] }, fr.checksum.to_vec())).collect();
+                // what frame_canonical_payload(id) reads: its own window, or (chunked document) the windows of its active chunks in chunk order
+                let deps: Vec<Vec<u64>> = toc.frames.iter().map(|fr| if fr.role == FrameRole::Document && fr.chunk_manifest.is_some() {
+                    let mut ch: Vec<&memvid_core::types::Frame> = toc.frames.iter().filter(|c| c.status == FrameStatus::Active && c.role == FrameRole::DocumentChunk && c.parent_id == Some(fr.id)).collect();
+                    ch.sort_by_key(|c| (c.chunk_index.unwrap_or(u32::MAX), c.id)); ch.iter().map(|c| c.id).collect() } else { vec![fr.id] }).collect();
+                let mut table: Vec<(Vec<u8>, Vec<u8>)> = vec![];
+                for (wb, _) in &wins { if !table.iter().any(|(k, _)| k == wb) { table.push((wb.clone(), blake3::hash(wb).as_bytes().to_vec())); } }
+                let mut scheds: Vec<(String, Vec<(u64, u8)>)> = vec![]; let (mut vb, mut va) = (9u8, 9u8);
+                for part in o.orders.split(';') {
+                    let (name, val) = part.split_once('=').unwrap_or((part, ""));
+                    match name { "vb" => vb = val.parse().unwrap_or(9), "va" => va = val.parse().unwrap_or(9),
+                        _ => scheds.push((name.to_string(), val.split(',').filter(|x| !x.is_empty()).map(|x| { let (a, b) = x.split_once(':').unwrap(); (a.parse().unwrap(), b.parse().unwrap()) }).collect())) }
+                }
+                // ---- the property, per read and per schedule
+                let mut oviol: Option<String> = None;
+                for (name, steps) in &scheds { for (i, (id, code)) in steps.iter().enumerate() { if *code >= 2 && oviol.is_none() {
+                    oviol = Some(format!("{}: {} {:?} of {} -> frame_canonical_payload({}) returned Ok with {} at step {} of read schedule '{}' ({:?})", class_name(class), kname, f, sc.name, id, if *code == 2 { "data different from what was committed" } else { "data where the clean file fails" }, i, name, steps)); } } }
+                let active_payload = class == C_PAY_PLAIN || class == C_PAY_ZSTD || class == C_PAY_CHUNK;
+                if oviol.is_none() && active_payload && (vb == 0 || va == 0) {
+                    oviol = Some(format!("{}: {} {:?} of {} -> verify(deep) = Passed ({} the reads) on a file in which the stored payload of an active frame changed", class_name(class), kname, f, sc.name, if vb == 0 { "before" } else { "after" }));
+                }
+                if oviol.is_none() {
+                    let mut seen: std::collections::BTreeMap<u64, u8> = Default::default();
+                    'outer: for (name, steps) in &scheds { for (id, code) in steps { let e = seen.entry(*id).or_insert(*code); if *e != *code {
+                        oviol = Some(format!("read-order-dependent: {} {:?} of {} -> frame_canonical_payload({}) answers {} in schedule '{}' but {} elsewhere (the read is stateless: the answer may depend only on the frame's bytes and TOC entry)", kname, f, sc.name, id, code, name, e)); break 'outer; } } }
+                }
+                if viol.is_none() { viol = oviol.clone(); }
+                let o_in = T::Tup(vec![
+                    T::L(wins.iter().map(|(a, b)| T::Tup(vec![T::H(a.clone()), T::H(b.clone())])).collect()),
+                    T::L(deps.iter().map(|d| T::L(d.iter().map(|x| T::Nat(*x)).collect())).collect()),
+                    T::L(scheds.iter().map(|(_, st)| T::L(st.iter().map(|(id, _)| T::Nat(*id)).collect())).collect()),
+                    T::L(table.iter().map(|(k, d)| T::Tup(vec![T::H(k.clone()), T::H(d.clone())])).collect())]);
+                let o_out = T::L(scheds.iter().map(|(_, st)| T::L(st.iter().map(|(_, c)| T::N(if *c == 0 { 0 } else { 1 })).collect())).collect());
+                let ncopies = wins.iter().filter(|(wb, ck)| !wb.is_empty() && wins.iter().filter(|(_, c2)| c2 == ck).count() > 1).count();
+                emit(w, "order", &Case { input: o_in, output: o_out, violation: oviol, nontrivial: true, tags: vec![sc.name.into(), class_name(class).into(), kname.into(), format!("dupwindows{}", ncopies.min(9)), format!("vb{}va{}", vb, va)], key: format!("order:{}:{}:{}:{}", sc.name, kind, off, len) });
             }
             emit(w, "fault", &Case { input, output, violation: viol, nontrivial: o.changed, tags: vec![sc.name.into(), class_name(class).into(), kname.into(), format!("rw-{:?}", o.rw), format!("ro-{:?}", o.ro), format!("verify-{}", o.verify)], key: format!("{}:{}:{}:{}", sc.name, kind, off, len) });
         }
